@@ -349,6 +349,11 @@ func accessPathD(v ssa.Value, depth int) string {
 	case *ssa.UnOp:
 		switch x.Op {
 		case token.MUL:
+			if al, ok := x.X.(*ssa.Alloc); ok {
+				if sv := allocSingleStore(al); sv != nil {
+					return accessPathD(sv, depth+1)
+				}
+			}
 			p := accessPathD(x.X, depth+1)
 			if strings.HasPrefix(p, "&") {
 				return p[1:]
@@ -618,4 +623,137 @@ func loopBlocks(f *ssa.Function) map[*ssa.BasicBlock]bool {
 		}
 	}
 	return out
+}
+
+// ---------------------------------------------------------------------------------------------
+// canonical branch facts
+
+// canonCond renders a boolean condition with its truth folded in: comparisons become "A op B" with op in
+// {==, !=, <, <=} (operands swapped / operator negated as needed, symmetric operands sorted); other values
+// render as "P" or "!P".
+func canonCond(v ssa.Value, truth bool) string {
+	v, truth = stripNot(v, truth)
+	if b, ok := v.(*ssa.BinOp); ok {
+		op := b.Op
+		x, y := accessPath(b.X), accessPath(b.Y)
+		if !truth {
+			switch op {
+			case token.EQL:
+				op = token.NEQ
+			case token.NEQ:
+				op = token.EQL
+			case token.LSS:
+				op = token.GEQ
+			case token.LEQ:
+				op = token.GTR
+			case token.GTR:
+				op = token.LEQ
+			case token.GEQ:
+				op = token.LSS
+			default:
+				return "!" + accessPath(v)
+			}
+		}
+		switch op {
+		case token.GTR:
+			op, x, y = token.LSS, y, x
+		case token.GEQ:
+			op, x, y = token.LEQ, y, x
+		case token.EQL, token.NEQ:
+			if y < x {
+				x, y = y, x
+			}
+		case token.LSS, token.LEQ:
+		default:
+			if truth {
+				return accessPath(v)
+			}
+			return "!" + accessPath(v)
+		}
+		return x + " " + op.String() + " " + y
+	}
+	if truth {
+		return accessPath(v)
+	}
+	return "!" + accessPath(v)
+}
+
+// canonFacts returns the canonical facts dominating block b (plus extra).
+func canonFacts(b *ssa.BasicBlock, extra ...Fact) map[string]bool {
+	out := map[string]bool{}
+	for _, f := range append(condFacts(b), extra...) {
+		out[canonCond(f.Cond, f.Truth)] = true
+	}
+	return out
+}
+
+func factList(m map[string]bool) string {
+	var s []string
+	for k := range m {
+		s = append(s, k)
+	}
+	sortStrings(s)
+	return strings.Join(s, "; ")
+}
+
+func sortStrings(s []string) {
+	for i := 1; i < len(s); i++ {
+		for j := i; j > 0 && s[j] < s[j-1]; j-- {
+			s[j], s[j-1] = s[j-1], s[j]
+		}
+	}
+}
+
+// allPathsHit: every CFG path that starts right after `start` reaches an instruction satisfying hit
+// before reaching a function exit (Return / Panic) or an instruction satisfying bad.
+// Returns ok and, when not ok, the offending instruction.
+func allPathsHit(start ssa.Instruction, hit func(ssa.Instruction) bool, bad func(ssa.Instruction) bool) (bool, ssa.Instruction) {
+	seen := map[*ssa.BasicBlock]bool{}
+	var fail ssa.Instruction
+	var walk func(b *ssa.BasicBlock, from int) bool
+	walk = func(b *ssa.BasicBlock, from int) bool {
+		for i := from; i < len(b.Instrs); i++ {
+			ins := b.Instrs[i]
+			if hit(ins) {
+				return true
+			}
+			if bad != nil && bad(ins) {
+				fail = ins
+				return false
+			}
+			switch ins.(type) {
+			case *ssa.Return, *ssa.Panic:
+				fail = ins
+				return false
+			}
+		}
+		for _, s := range b.Succs {
+			if seen[s] {
+				continue
+			}
+			seen[s] = true
+			if !walk(s, 0) {
+				return false
+			}
+		}
+		return true
+	}
+	ok := walk(start.Block(), instrIndex(start)+1)
+	return ok, fail
+}
+
+// allocSingleStore returns the value stored into a local allocation when there is exactly one store.
+func allocSingleStore(al *ssa.Alloc) ssa.Value {
+	var v ssa.Value
+	n := 0
+	for _, r := range refsOf(al) {
+		if st, ok := r.(*ssa.Store); ok && st.Addr == ssa.Value(al) {
+			n++
+			v = st.Val
+		}
+	}
+	if n == 1 {
+		return v
+	}
+	return nil
 }
